@@ -170,6 +170,21 @@ def rule_template(ctx):
                         for d2 in fn_b.defs().get(d["rv"]["pl"]["l"], []):
                             if d2["kind"] == "assign" and d2["rv"]["k"] == "use" and d2["rv"]["op"].get("str") is not None:
                                 s = d2["rv"]["op"]["str"]
+            if s is None and a and a.get("k") == "const" and "str" in fx.consts.get(a.get("def"), {}):
+                s = fx.consts[a["def"]]["str"]
+            if s is None and a and op_root(a) is not None:
+                # a named constant (`const TEMPLATE_CALL: &str = ..`)
+                from ..mir import Flow as _Flow
+                vals = set()
+                for o0 in _Flow(fn_b).origins(op_root(a), ()):
+                    if o0[0] == "const" and o0[1].startswith("str:"):
+                        vals.add(o0[1][4:])
+                    elif o0[0] == "const" and o0[1].startswith("def:") and "str" in fx.consts.get(o0[1][4:], {}):
+                        vals.add(fx.consts[o0[1][4:]]["str"])
+                    else:
+                        vals.add(None)
+                if len(vals) == 1 and None not in vals:
+                    s = vals.pop()
             if s is None and a and op_root(a) is not None:
                 # the needle is a parameter of a helper (`instantiate(text, placeholder, instance)`): the constant strings its callers pass
                 from ..mir import Flow as _Flow
